@@ -474,7 +474,11 @@ func SetupOnly(id string) {
 		os.Exit(2)
 	}
 	os.Setenv("VERIF_OUT", os.TempDir())
-	c := harness.New(id, "quick", "mc")
+	tier := "quick"
+	if t := os.Getenv("VERIF_SETUP_TIER"); t != "" {
+		tier = t
+	}
+	c := harness.New(id, tier, "mc")
 	def.Setup(c)
 	fmt.Println("violations:", c.NumViolations())
 }
